@@ -342,6 +342,7 @@ func executeRun(s *RunSpec, runIdx int, racePath string) (doneEv, *violEv) {
 			if op.K == opSend && !r.skipped {
 				sharedMsgs++
 			}
+			d.Faults["decodes_into_a_used_receiver"] += r.reused
 			if s.Sched.Gran != granOp && opLibrary(op.K) && r.siteHash != ref.res[t][i].siteHash {
 				d.Divergent++
 			}
